@@ -378,7 +378,7 @@ inductive Op where
   | payment
   /-- stop (tearing the listed `(task id, bytes written)`), then reopen on the same directory -/
   | crash (torn : List (Nat × Nat))
-  deriving Repr
+  deriving DecidableEq, Repr
 
 inductive Out where
   | put (r : PutRes)
